@@ -1146,7 +1146,7 @@ class Envelope:
 
             # state is reordered, so the state operated on is in the first state
             ps = jnp.einsum("ij,jkl->ikl", operation.operator, ps)
-            if not jnp.any(jnp.abs(ps) > 0):
+            if not jnp.any(jnp.abs(ps) > 1e-12):
                 raise ValueError(
                     "The state is entirely composed of zeros, is |0⟩ attempted "
                     "to be annihilated?"
@@ -1168,7 +1168,7 @@ class Envelope:
 
             ps = ps.transpose([0, 2, 1, 3])
             ps = ps.reshape(self.dimensions, self.dimensions)
-            if not jnp.any(jnp.abs(ps) > 0):
+            if not jnp.any(jnp.abs(ps) > 1e-12):
                 raise ValueError(
                     "The state is entirely composed of zeros, "
                     "is |0⟩ attempted to be annihilated?"
